@@ -204,6 +204,7 @@ type Reporter struct {
 	evals       int64
 	notes       []string
 	minV        map[string]*minVio
+	knownCfg    map[string]map[string]int
 }
 
 func newReporter() *Reporter {
@@ -266,6 +267,20 @@ func (r *Reporter) Violate(key string, what string, replay any) {
 	b, _ := json.MarshalIndent(map[string]any{"property": propID, "what": what, "case": replay}, "", " ")
 	_ = os.WriteFile(path, b, 0o644)
 	r.violations = append(r.violations, Violation{Key: key, Replay: path, What: what})
+}
+
+// KnownOn records a known-finding observation together with its configuration.
+func (r *Reporter) KnownOn(id string, cfg string, what string) {
+	r.Known(id, what)
+	r.mu.Lock()
+	if r.knownCfg == nil {
+		r.knownCfg = map[string]map[string]int{}
+	}
+	if r.knownCfg[id] == nil {
+		r.knownCfg[id] = map[string]int{}
+	}
+	r.knownCfg[id][cfg]++
+	r.mu.Unlock()
 }
 
 // ViolateMin records a violation under a cluster key and keeps the smallest
@@ -361,6 +376,9 @@ func (r *Reporter) writeEvidence() {
 		known[k] = v
 	}
 	cov["known_finding_observations"] = known
+	if r.knownCfg != nil {
+		cov["known_finding_configurations"] = r.knownCfg
+	}
 	if r.Assumptions == nil {
 		r.Assumptions = []string{"bounded exploration: nothing outside the stated bounds is covered"}
 	}
